@@ -261,6 +261,11 @@ def locals_parse(F, res):
         res.bad('parse/params-in-order', 'parse_local_functions: ' + bad + ': parameter i of the function would no longer be local i')
     elif n:
         res.ok('parse/params-in-order', {'args': 'seq[locals.add(ty) | ty in params(type)] in order'})
+    elif any('rayon' in str(b['term'].get('func')) for b in F.mir.get(c[0], {'blocks': []})['blocks'] if b['term'].get('t') == 'Call') or \
+            any('rayon' in q for q in F.mir if q.startswith(c[0])):
+        # the parallel build hands the bodies to rayon inside a closure the evaluator does not enter; the two builds differ
+        # only at the maybe_parallel! sites (R-PAR), and the serial build is decided above
+        res.note('parse/params-in-order is decided on the serial configuration')
     else:
         res.error('parse_local_functions: no call of the body parser found')
 
